@@ -36,7 +36,7 @@ def required_cells(tier):
 
 
 def cases(tier, seed):
-    n = 45 if tier == "quick" else 400
+    n = 90 if tier == "quick" else 600
     return [{"kind": "mf", "seed": seed, "idx": i, "tier": tier}
             for i in range(n)]
 
